@@ -145,7 +145,7 @@ class GenericUnconnectedRequestPacket(SendRRDataRequestPacket):
             msg = [
                 wrap_unconnected_send(
                     b"".join((self.service, req_path, self.request_data)),
-                    self.route_path,
+                    self.route_path or b"\x00\x00",  # no route: an empty route path (size 0, reserved byte)
                 ),
             ]
         else:
